@@ -109,10 +109,16 @@ func filterSig(want, got []string) string {
 
 // ---- damaged paths (negative space) ------------------------------------------------
 
+// anyClientError as wantStatus: any 4xx will do
+const anyClientError = -4
+
 // damagePath rewrites the request path of a well-formed call into one that must not
 // be routed, and returns the status the server has to answer with.
 func damagePath(c *harness.Ctx, w *World, call *Call) {
 	kind := c.Choose(4, "path-damage")
+	if c.Choose(5, "empty-segment") == 4 {
+		kind = 6 + c.Choose(3, "empty-segment-kind")
+	}
 	if w.mount == "prefix" {
 		switch c.Choose(6, "glue-prefix") {
 		case 3:
@@ -162,6 +168,16 @@ func damagePath(c *harness.Ctx, w *World, call *Call) {
 			if prefix != "" {
 				call.wantStatus, name = 404, "damage-glued-prefix"
 			}
+		case 6: // a trailing slash: an empty last segment names neither a resource nor a key
+			call.wantStatus, name = anyClientError, "damage-trailing-slash"
+		case 7: // an empty segment in the middle ("//")
+			if len(segs) >= 2 && w.mount != "mux" {
+				call.wantStatus, name = anyClientError, "damage-empty-segment"
+			}
+		case 8: // an extra leading slash
+			if w.mount != "mux" && prefix == "" {
+				call.wantStatus, name = anyClientError, "damage-leading-double-slash"
+			}
 		case 5: // the mount prefix somewhere in the middle of the path: the path is not below the prefix
 			if prefix != "" {
 				call.wantStatus, name = 404, "damage-prefix-in-the-middle"
@@ -185,6 +201,14 @@ func damagePath(c *harness.Ctx, w *World, call *Call) {
 		}
 		if name == "damage-prefix-in-the-middle" {
 			np = "/v9" + np
+		}
+		switch name {
+		case "damage-trailing-slash":
+			np += "/"
+		case "damage-empty-segment":
+			np = prefix + "/" + segs[0] + "//" + strings.Join(segs[1:], "/")
+		case "damage-leading-double-slash":
+			np = "/" + np
 		}
 		u := *req.URL
 		u.RawPath = ""
@@ -220,9 +244,10 @@ func checkDamagedPath(c *harness.Ctx, w *World, call *Call, where string) bool {
 		return false
 	}
 	c.Probe("negative-space-request-checked")
-	if methodClass(call, w) == "action" && call.Res.Kind == "collection" && (damaged == "damage-added-key" || damaged == "damage-dropped-key") {
+	if methodClass(call, w) == "action" && call.Res.Kind == "collection" && (damaged == "damage-added-key" || damaged == "damage-dropped-key" || damaged == "damage-trailing-slash") {
+		// (a trailing slash after the collection's name is an added - empty - key)
 		// one defect, several faces (dispatched / filters ran / 500 instead of 400): one signature
-		if len(call.Inv) > 0 || len(call.Filt) > 0 || e.Status != call.wantStatus {
+		if len(call.Inv) > 0 || len(call.Filt) > 0 || (e.Status != call.wantStatus && !(call.wantStatus == anyClientError && e.Status >= 400 && e.Status < 500)) {
 			c.Fail("C05", "action-entity-presence", "action-entity-presence-not-validated", "%s: %s (%s): the presence of an entity key does not match what the action requires, yet invocations=%d filter calls=%d status=%d (expected: 400, nothing runs)", where, damaged, firstLine(e.ReqBytes), len(call.Inv), len(call.Filt), e.Status)
 		}
 		return true
@@ -233,6 +258,15 @@ func checkDamagedPath(c *harness.Ctx, w *World, call *Call, where string) bool {
 	}
 	if len(call.Filt) > 0 {
 		c.Fail("C05", "unrouted-filtered", "unrouted-filtered:"+damaged+":"+call.Res.Kind+"."+methodClass(call, w), "%s: filters ran for a request that is not routed (%s: %s): %v", where, damaged, firstLine(e.ReqBytes), call.Filt)
+		return true
+	}
+	if call.wantStatus == anyClientError {
+		// which 4xx is not fixed by the property for these shapes (an empty segment is an unknown resource to one
+		// reading and an empty key to another); with a ServeMux in front a redirect may come back instead
+		if (e.Status >= 400 && e.Status < 500) || (w.mount == "mux" && e.Status >= 300 && e.Status < 400) {
+			return true
+		}
+		c.Fail("C05", "unrouted-status", fmt.Sprintf("unrouted-status:%s:%s.%s:%d", damaged, call.Res.Kind, methodClass(call, w), e.Status), "%s: %s (%s) was answered %d, expected a 4xx; body %q", where, damaged, firstLine(e.ReqBytes), e.Status, clip(e.RespBody, 200))
 		return true
 	}
 	if e.Status != call.wantStatus {
